@@ -85,27 +85,24 @@ Theorem C18_start_tag_tokens : forall tag attrs,
 Proof. exact start_tag_tokens. Qed.
 
 (* 5. The HTML templates.  Every hole that Tera renders without escaping (marked `safe`, or a macro call)
-      is fed by constants, option values, numbers or already-rendered macro output only - except the known
-      finding: `parent.0 | safe` in macros.html carries the directory name when --abs-link-prefix is given. *)
+      is fed by constants, option values, numbers or already-rendered macro output only.  (Until fix 6a2db8b
+      `parent.0 | safe` in macros.html was the exception, defect F13.) *)
 Theorem C18_unescaped_holes_trusted : forall h,
-  In h html_holes -> unescaped h = true -> KnownClass_safe_parent_link h = false ->
-  forallb (fun o => negb (untrusted o)) (h_from h) = true.
-Proof. exact holes_trusted_except_known. Qed.
-Theorem C18_safe_hole_refuted : exists h,
-  In h html_holes /\ KnownClass_safe_parent_link h = true /\ h_safe h = true /\ existsb untrusted (h_from h) = true.
-Proof. exact safe_hole_refuted. Qed.
-(* the witness at byte level: with a link prefix, a directory name changes the skeleton of the breadcrumb
-   entry as the template stands (an img element with an event handler appears) ... *)
+  In h html_holes -> unescaped h = true -> forallb (fun o => negb (untrusted o)) (h_from h) = true.
+Proof. exact unescaped_holes_trusted. Qed.
+(* the F13 witness at byte level: were the breadcrumb link pasted raw (`| safe`, as before the fix), a directory
+   name would change the skeleton of the breadcrumb entry when a link prefix is given (an img element with an
+   event handler appears) ... *)
 Definition hostile_dir : bytes := bs "d""><img src=x onerror=alert(1)>".
 Theorem C18_breadcrumb_refuted :
   tokens mstep MText (breadcrumb true (Some (bs "https://h")) hostile_dir) <>
   tokens mstep MText (breadcrumb true (Some (bs "https://h")) (bs "d")).
 Proof. vm_compute. discriminate. Qed.
-(* ... and not once `| safe` is dropped (the proposed patch), for every prefix and all directory names, *)
+(* ... which cannot happen with the template as it stands (escaped link), for every prefix and all directory names, *)
 Theorem C18_breadcrumb_fixed : forall p d1 d2,
   tokens mstep MText (breadcrumb false p d1) = tokens mstep MText (breadcrumb false p d2).
 Proof. exact breadcrumb_fixed. Qed.
-(* nor, as the template stands, without a link prefix. *)
+(* nor, even with a raw link, without a link prefix. *)
 Theorem C18_breadcrumb_no_prefix : forall d1 d2,
   tokens mstep MText (breadcrumb true None d1) = tokens mstep MText (breadcrumb true None d2).
 Proof. exact breadcrumb_no_prefix. Qed.
